@@ -25,6 +25,7 @@ Record async_code := {
   ac_lost_clear_first : bool;     (*   ... BEFORE the errback loop *)
   ac_lost_loop : bool;            (* connectionLost: for tid in list(self.transaction): ...errback *)
   ac_lost_exn : pyexn;            (*   ... ConnectionException *)
+  ac_close_clears : bool;         (* close(): self._connected = False *)
   ac_unit_default : N;            (* dataReceived: decode_data(data).get("unit", 0) *)
   ac_unit_wild : list N;          (* _validate_unit_id: the wildcard unit ids 0 and 0xFF ... *)
   ac_unit_wild_on_frame : bool }. (* ... tested on the EXPECTED units (false) or on the frame's own id (true) *)
@@ -56,6 +57,7 @@ Inductive aop :=
 | Segment (frames : list (N * N * N))  (* dataReceived(one segment of whole frames: unit, tid, reply id) *)
 | Lost                                 (* connectionLost *)
 | Made                                 (* connectionMade *)
+| Close                                (* protocol.close(): the user closes the client *)
 | Skip (n : N).                        (* n x getNextTID() by transactions outside the history *)
 
 Definition Reply (tid rid : N) : aop := Segment [(1, tid, rid)].
@@ -191,6 +193,8 @@ Definition do_lost (v : variant) (σ : astate) : astate :=
 
 Definition do_made (σ : astate) : astate := if ac_made_connected C then set_conn σ true else σ.
 
+Definition do_close (σ : astate) : astate := if ac_close_clears C then set_conn σ false else σ.
+
 Definition do_skip (σ : astate) (n : N) : astate :=
   {| a_tid := N.iter n next_tid (a_tid σ); a_alloc := a_alloc σ + n; a_pending := a_pending σ;
      a_conn := a_conn σ; a_fired := a_fired σ; a_sent := a_sent σ; a_lost := a_lost σ;
@@ -204,6 +208,7 @@ Definition astep (v : variant) (σ : astate) (o : aop) : astate :=
   | Segment fr => do_segment v σ fr
   | Lost => do_lost v σ
   | Made => do_made σ
+  | Close => do_close σ
   | Skip n => do_skip σ n
   end.
 
@@ -246,4 +251,5 @@ Definition good_code (C : async_code) : Prop :=
   ac_init_connected C = false /\ ac_made_connected C = true /\
   ac_build_guard C = true /\ ac_build_exn C = ConnectionExc /\ ac_handle_by_reply_tid C = true /\
   ac_lost_clears C = true /\ ac_lost_loop C = true /\ ac_lost_exn C = ConnectionExc /\
-  ac_lost_clear_first C = true /\ ac_unit_wild C = [0; 255] /\ ac_unit_wild_on_frame C = false.
+  ac_lost_clear_first C = true /\ ac_unit_wild C = [0; 255] /\ ac_unit_wild_on_frame C = false /\
+  ac_close_clears C = true /\ ac_unit_default C = 0.
